@@ -5,6 +5,11 @@
 // observation (LAYOUT/NFEAT/NCOLS/C2F/GFEAT/FLAT/SEL*/TARGETS/TSEL*/REJ/SETBAD lines) for the differential
 // correspondence (ocaml/c08_driver.ml), and checks the property directly against a shadow copy of the stored
 // values (FAIL lines), independently of the model.
+// Gradient generator: all three kernels (sobel / scharr / prewitt) are drawn; the images of gradient-eligible features
+// carry values at the type limits, constant images and single spikes; the VALUES of the 4 features per channel are
+// printed in hex (bit-exact exchange with the PrimFloat model) and checked here against an independent textbook
+// 3x3 gradient computed from the shadow copy (gx, gy, magnitude exactly; angle within 1e-12), with (channel, mode)
+// assigned by POSITION (4 features per channel, in the order gx, gy, magnitude, angle), not by the descriptor's name.
 // Usage: c08_dataset <quick|thorough> [cases] [first-case]; seed from VERIF_SEED.
 #include "common.h"
 #include <nano/dataset.h>
@@ -71,6 +76,13 @@ std::string fmt(double v)
         std::snprintf(buf, sizeof(buf), "%lld", static_cast<long long>(v));
         return buf;
     }
+    return vh::hexf(v);
+}
+
+// gradient values: always hex (sign of zero and every bit preserved)
+std::string fmtx(double v)
+{
+    if (std::isnan(v)) return "nan";
     return vh::hexf(v);
 }
 
@@ -158,11 +170,62 @@ i64 rand_value(vh::rng_t& rng, int type)
     return rng.range(lo[type], hi[type]);
 }
 
+// pixels of gradient-eligible images: the full range of the storage type where every integer of the range is exactly
+// representable in the storage type AND in double (8/16/32-bit integers: the type limits; 64-bit integers and float64:
+// +-2^52; float32: +-2^24), so that the differences / weighted sums of the 3x3 kernels do round in double
+const i64 pix_lo[] = {-128, -32768, -(1LL << 31), -(1LL << 52), 0, 0, 0, 0, -(1LL << 24), -(1LL << 52)};
+const i64 pix_hi[] = {127, 32767, (1LL << 31) - 1, (1LL << 52), 255, 65535, (1LL << 32) - 1, (1LL << 52), (1LL << 24), (1LL << 52)};
+i64 rand_pixel(vh::rng_t& rng, int type)
+{
+    const auto m = rng.next() % 10;
+    if (m == 0) return pix_lo[type];
+    if (m == 1) return pix_hi[type];
+    if (m == 2) return pix_hi[type] - static_cast<i64>(rng.next() % 3);
+    if (m < 6) return rng.range(std::max<i64>(pix_lo[type], -9), std::min<i64>(pix_hi[type], 9));
+    return rng.range(pix_lo[type], pix_hi[type]);
+}
+
+// one image (channels x rows x cols values): constant / single spike / limits only / random
+std::vector<i64> rand_image(vh::rng_t& rng, int type, i64 size)
+{
+    std::vector<i64> v(static_cast<size_t>(size));
+    const auto m = rng.next() % 20;
+    if (m < 4)
+    {
+        const auto c = rand_pixel(rng, type);
+        for (auto& x : v) x = c;
+    }
+    else if (m < 7)
+    {
+        const auto c = (rng.next() % 2 == 0) ? 0 : rand_pixel(rng, type);
+        for (auto& x : v) x = c;
+        v[static_cast<size_t>(rng.range(0, size - 1))] = (rng.next() % 2 == 0) ? pix_hi[type] : rand_pixel(rng, type);
+    }
+    else if (m < 10)
+    {
+        for (auto& x : v) x = (rng.next() % 2 == 0) ? pix_lo[type] : pix_hi[type];
+    }
+    else
+    {
+        for (auto& x : v) x = rand_pixel(rng, type);
+    }
+    return v;
+}
+
+const char* const kernel_names[] = {"sobel", "scharr", "prewitt"};
+
 struct gen_spec_t
 {
     std::string kind; // sclass mclass scalar struct product gradient
     std::vector<i64> ids1, ids2;
     bool two_lists = false;
+    int kernel = 0;   // gradient: kernel3x3_type
+};
+
+// what the oracle expects of the i-th gradient feature of the dataset (by position)
+struct gexp_t
+{
+    int input = 0, channel = 0, mode = 0, kernel = 0;
 };
 
 enum class st_t { normal, dropped, shuffled };
@@ -173,6 +236,7 @@ struct dsf_t // a dataset (generated) feature as understood by the oracle: from 
     std::string kind;  // sclass mclass scalar struct (of the descriptor)
     int src1 = -1, src2 = -1; // input feature indices of the sources (parsed from the name)
     bool product = false, gradient = false;
+    int channel = 0, mode = 0, kernel = 0; // gradient: by position in the generator (see gexp_t)
     i64 classes = 0, size = 1, cols = 0, offset = 0;
     st_t state = st_t::normal;
     std::vector<i64> perm;
@@ -209,6 +273,40 @@ struct runner_t
         std::vector<double> out;
         for (auto v : *c1) out.push_back(static_cast<double>(v));
         return out;
+    }
+
+    // independent textbook 3x3 gradient of dataset feature f at (requested) sample s: nullopt = missing.
+    // pixel(ch, r, c) of the stored (channels, rows, cols) image; weights: sobel 1/4 2/4 1/4, scharr 3/16 10/16 3/16,
+    // prewitt 1/3 1/3 1/3; gx = sum_i w_i * (p(r+i, c+2) - p(r+i, c)), gy = sum_i w_i * (p(r+2, c+i) - p(r, c+i))
+    std::optional<std::vector<double>> expected_gradient(const dsf_t& f, i64 s) const
+    {
+        if (f.state == st_t::dropped) return std::nullopt;
+        if (f.state == st_t::shuffled) s = f.perm[static_cast<size_t>(s)];
+        const auto& cell = input_cell(f.src1, s);
+        if (!cell) return std::nullopt;
+        const auto& sd = feats[static_cast<size_t>(inputs[static_cast<size_t>(f.src1)])];
+        static const double ws[3][3] = {{0.25, 0.5, 0.25}, {0.1875, 0.625, 0.1875}, {1.0 / 3.0, 1.0 / 3.0, 1.0 / 3.0}};
+        const double* w = ws[f.kernel];
+        const auto pix = [&](i64 r, i64 c) { return static_cast<double>((*cell)[static_cast<size_t>(f.channel * sd.d1 * sd.d2 + r * sd.d2 + c)]); };
+        std::vector<double> out;
+        for (i64 r = 0; r + 2 < sd.d1; ++r)
+        {
+            for (i64 c = 0; c + 2 < sd.d2; ++c)
+            {
+                const double gx = w[0] * (pix(r, c + 2) - pix(r, c)) + w[1] * (pix(r + 1, c + 2) - pix(r + 1, c)) + w[2] * (pix(r + 2, c + 2) - pix(r + 2, c));
+                const double gy = w[0] * (pix(r + 2, c) - pix(r, c)) + w[1] * (pix(r + 2, c + 1) - pix(r, c + 1)) + w[2] * (pix(r + 2, c + 2) - pix(r, c + 2));
+                out.push_back(f.mode == 0 ? gx : f.mode == 1 ? gy : f.mode == 2 ? std::sqrt(gx * gx + gy * gy) : std::atan2(gy, gx));
+            }
+        }
+        return out;
+    }
+
+    // gx, gy, magnitude: bit for bit; angle: 1e-12 absolute
+    static bool same_gradient(int mode, double got, double want)
+    {
+        if (std::isnan(got) || std::isnan(want)) return std::isnan(got) && std::isnan(want);
+        if (mode == 3) return std::fabs(got - want) <= 1e-12;
+        return got == want && std::signbit(got) == std::signbit(want);
     }
 
     std::vector<i64> sample_list(bool valid = true)
@@ -258,10 +356,12 @@ struct runner_t
         const auto flat = ds->flatten(idx, flat_buffer);
         std::string out;
         if (flat.size<0>() != static_cast<tensor_size_t>(s.size()) || flat.size<1>() != ds->columns()) fail("flatten-dims", jl(s));
+        std::vector<char> gradcol(static_cast<size_t>(std::max<tensor_size_t>(ds->columns(), 0)), 0);
+        for (const auto& d : dfs) if (d.gradient) for (i64 c = 0; c < d.cols; ++c) if (static_cast<size_t>(d.offset + c) < gradcol.size()) gradcol[static_cast<size_t>(d.offset + c)] = 1;
         for (tensor_size_t i = 0; i < flat.size<0>(); ++i)
         {
             if (i) out += ";";
-            for (tensor_size_t c = 0; c < flat.size<1>(); ++c) { if (c) out += ","; out += fmt(flat(i, c)); }
+            for (tensor_size_t c = 0; c < flat.size<1>(); ++c) { if (c) out += ","; out += gradcol[static_cast<size_t>(c)] ? fmtx(flat(i, c)) : fmt(flat(i, c)); }
         }
         std::printf("FLAT %s = %s\n", jl(s).c_str(), out.c_str());
         // direct oracle: every feature's segment is the documented encoding of the stored value
@@ -270,7 +370,19 @@ struct runner_t
             for (size_t f = 0; f < dfs.size(); ++f)
             {
                 const auto& d = dfs[f];
-                if (d.gradient) continue; // checked against the select view in query_select
+                if (d.gradient)
+                {
+                    // the segment is the row-major flattening of the textbook gradient image (all NaN if missing)
+                    const auto eg = expected_gradient(d, s[i]);
+                    if (eg && static_cast<i64>(eg->size()) != d.cols) { fail("gradient-size", "feature", f, "expected", eg->size(), "columns", d.cols); return; }
+                    for (i64 c = 0; c < d.cols; ++c)
+                    {
+                        const double want = eg ? (*eg)[static_cast<size_t>(c)] : std::nan("");
+                        const auto got = flat(static_cast<tensor_size_t>(i), d.offset + c);
+                        if (!same_gradient(d.mode, got, want)) { fail("gradient-flatten-value", "feature", f, "kernel", kernel_names[d.kernel], "channel", d.channel, "mode", d.mode, "sample", s[i], "column", d.offset + c, "got", fmtx(got), "want", fmtx(want), "samples", jl(s)); return; }
+                    }
+                    continue;
+                }
                 const auto ev = expected(d, s[i]);
                 for (i64 c = 0; c < d.cols; ++c)
                 {
@@ -329,7 +441,7 @@ struct runner_t
         for (size_t i = 0; i < s.size(); ++i)
         {
             if (i) out += ";";
-            for (size_t c = 0; c < got[i].size(); ++c) { if (c) out += ","; out += fmt(got[i][c]); }
+            for (size_t c = 0; c < got[i].size(); ++c) { if (c) out += ","; out += d.gradient ? fmtx(got[i][c]) : fmt(got[i][c]); }
         }
         std::printf("%s %zu | %s = %s\n", tag, f, jl(s).c_str(), out.c_str());
         // direct oracle: identity / product / missing markers
@@ -338,9 +450,16 @@ struct runner_t
         {
             if (d.gradient)
             {
-                // missing pattern only (the float kernel is not part of the property's discrete core)
                 const bool want_missing = d.state == st_t::dropped || !input_cell(d.src1, d.state == st_t::shuffled ? d.perm[static_cast<size_t>(s[i])] : s[i]);
                 for (auto v : got[i]) if (std::isnan(v) != want_missing) { fail("gradient-missing-pattern", "feature", f, "sample", s[i]); return; }
+                // the values: textbook 3x3 gradient of the stored image
+                const auto eg = expected_gradient(d, s[i]);
+                if (eg && eg->size() != got[i].size()) { fail("gradient-size", "feature", f, "expected", eg->size(), "got", got[i].size()); return; }
+                for (size_t c = 0; eg && c < got[i].size(); ++c)
+                {
+                    if (!same_gradient(d.mode, got[i][c], (*eg)[c])) { fail("gradient-select-value", "feature", f, "kernel", kernel_names[d.kernel], "channel", d.channel, "mode", d.mode, "sample", s[i], "component", c, "got", fmtx(got[i][c]), "want", fmtx((*eg)[c]), "samples", jl(s)); return; }
+                    if (d.mode == 2 && !(got[i][c] >= 0.0)) { fail("gradient-magnitude-negative", "feature", f, "sample", s[i], "component", c, "got", fmtx(got[i][c])); return; }
+                }
                 continue;
             }
             const auto ev = expected(d, s[i]);
@@ -582,6 +701,7 @@ void run_case(uint64_t seed, const std::string& id, bool big)
                 setop_t op{static_cast<i64>(fi), s, {}, false};
                 if (d.is_sclass()) op.vals = {(rng.next() % 4 == 0) ? d.classes - 1 : (rng.next() % 4 == 0) ? std::max<i64>(0, d.classes - 2) : rng.range(0, d.classes - 1)};
                 else if (d.is_mclass()) { for (i64 c = 0; c < d.classes; ++c) op.vals.push_back(static_cast<i64>(rng.next() % 2)); }
+                else if (d.d1 >= 3 && d.d2 >= 3) { op.vals = rand_image(rng, d.type, d.size()); }
                 else { for (i64 c = 0; c < d.size(); ++c) op.vals.push_back(rand_value(rng, d.type)); }
                 ops.push_back(op);
             }
@@ -690,7 +810,15 @@ void run_case(uint64_t seed, const std::string& id, bool big)
         else if (spec.kind == "mclass") { if (spec.ids1.empty()) dataset.add<mclass_identity_generator_t>(); else dataset.add<mclass_identity_generator_t>(to_idx(spec.ids1)); }
         else if (spec.kind == "scalar") { if (spec.ids1.empty()) dataset.add<scalar_identity_generator_t>(); else dataset.add<scalar_identity_generator_t>(to_idx(spec.ids1)); }
         else if (spec.kind == "struct") { if (spec.ids1.empty()) dataset.add<struct_identity_generator_t>(); else dataset.add<struct_identity_generator_t>(to_idx(spec.ids1)); }
-        else if (spec.kind == "gradient") { if (spec.ids1.empty()) dataset.add<gradient_generator_t>(); else dataset.add<gradient_generator_t>(to_idx(spec.ids1)); }
+        else if (spec.kind == "gradient")
+        {
+            spec.kernel = static_cast<int>(rng.next() % 3);
+            const auto kt = static_cast<kernel3x3_type>(spec.kernel);
+            // the default-kernel constructors are exercised too (sobel)
+            if (spec.kernel == 0 && rng.next() % 2 == 0) { if (spec.ids1.empty()) dataset.add<gradient_generator_t>(); else dataset.add<gradient_generator_t>(to_idx(spec.ids1)); }
+            else if (spec.ids1.empty()) dataset.add<gradient_generator_t>(kt);
+            else dataset.add<gradient_generator_t>(kt, to_idx(spec.ids1));
+        }
         else if (!spec.ids1.empty() && rng.next() % 2 == 0)
         {
             // two DIFFERENT feature lists (any order, repeats, different lengths): the products of list 1 x list 2
@@ -699,12 +827,29 @@ void run_case(uint64_t seed, const std::string& id, bool big)
             dataset.add<pairwise_product_generator_t>(to_idx(spec.ids1), to_idx(spec.ids2));
         }
         else { if (spec.ids1.empty()) dataset.add<pairwise_product_generator_t>(); else dataset.add<pairwise_product_generator_t>(to_idx(spec.ids1)); }
-        std::printf("GEN %s %s | %s\n", spec.kind.c_str(), jl(spec.ids1).c_str(), jl(spec.ids2).c_str());
+        std::printf("GEN %s%s%s %s | %s\n", spec.kind.c_str(), spec.kind == "gradient" ? "@" : "", spec.kind == "gradient" ? kernel_names[spec.kernel] : "", jl(spec.ids1).c_str(), jl(spec.ids2).c_str());
         gens.push_back(spec);
     }
 
     runner_t r{rng, N, feats, target, shadow, {}, &dataset, {}};
     for (size_t raw = 0; raw < F; ++raw) if (static_cast<int>(raw) != target) r.inputs.push_back(static_cast<int>(raw));
+
+    // the gradient features the dataset must contain, in order: per gradient generator, per selected structured feature
+    // with rows, cols >= 3 (in the order of the given list, repeats kept), per channel, the 4 modes gx, gy, magnitude, angle
+    std::vector<gexp_t> gexp;
+    for (const auto& spec : gens)
+    {
+        if (spec.kind != "gradient") continue;
+        auto ids = spec.ids1;
+        if (ids.empty()) for (i64 i = 0; i < I; ++i) ids.push_back(i);
+        for (const auto id : ids)
+        {
+            const auto& d = feats[static_cast<size_t>(r.inputs[static_cast<size_t>(id)])];
+            if (!d.is_struct() || d.d1 < 3 || d.d2 < 3) continue;
+            for (i64 ch = 0; ch < d.d0; ++ch) for (int mode = 0; mode < 4; ++mode) gexp.push_back({static_cast<int>(id), static_cast<int>(ch), mode, spec.kernel});
+        }
+    }
+    size_t ngrad = 0;
 
     // ---- bookkeeping ---------------------------------------------------------------------------
     const auto DF = dataset.features();
@@ -769,8 +914,25 @@ void run_case(uint64_t seed, const std::string& id, bool big)
             if (!s1.is_scalar() || !s2.is_scalar() || d.kind != "scalar") fail("product-descriptor", name);
         }
         else if (!s1.is_struct() || dims[0] != 1 || dims[1] != s1.d1 - 2 || dims[2] != s1.d2 - 2) fail("gradient-descriptor", name);
+        if (d.gradient)
+        {
+            // (channel, mode, kernel) by position; the descriptor (source, name, type) must say the same
+            if (ngrad >= gexp.size()) fail("gradient-feature-unexpected", f, name);
+            else
+            {
+                const auto& e = gexp[ngrad];
+                d.channel = e.channel;
+                d.mode    = e.mode;
+                d.kernel  = e.kernel;
+                static const char* const suffix[] = {"gx", "gy", "gg", "theta"};
+                const auto want = std::string(kernel_names[e.kernel]) + "::" + suffix[e.mode] + "(f" + std::to_string(r.inputs[static_cast<size_t>(e.input)]) + "[channel::" + std::to_string(e.channel) + "])";
+                if (d.src1 != e.input || name != want || static_cast<int>(ft.type()) != 9) fail("gradient-descriptor-order", f, "name", name, "expected", want);
+            }
+            ++ngrad;
+        }
         r.dfs.push_back(d);
     }
+    if (ngrad != gexp.size()) fail("gradient-feature-count", ngrad, gexp.size());
     if (offset != DC) fail("columns-not-sum-of-feature-columns", offset, DC);
     {
         std::vector<i64> c2f;
